@@ -46,8 +46,17 @@ def _lake(args, timeout=3000):
 
 
 def load_props():
+    """props.json plus any props/<id>.json (one file per vertical slice)."""
     with open(os.path.join(VERIF, 'props.json')) as f:
-        return json.load(f)
+        props = json.load(f)
+    import glob
+    for p in sorted(glob.glob(os.path.join(VERIF, 'props', '*.json'))):
+        with open(p) as f:
+            for k, v in json.load(f).items():
+                e = props.setdefault(k, dict(theorems=[], modules=[]))
+                e['theorems'] = e.get('theorems', []) + [t for t in v.get('theorems', []) if t not in e.get('theorems', [])]
+                e['modules'] = e.get('modules', []) + [t for t in v.get('modules', []) if t not in e.get('modules', [])]
+    return props
 
 
 def strip_comments(src):
@@ -181,8 +190,9 @@ def parse_axioms(text):
     return res
 
 
-def run_model(lines, timeout=600):
-    """Pipe protocol lines through the compiled Lean driver."""
+def run_model(lines, timeout=600, driver=None):
+    """Pipe protocol lines through a compiled Lean driver (default: ddvdrv)."""
+    DRIVER = globals()['DRIVER'] if driver is None else os.path.join(LEAN, '.lake', 'build', 'bin', driver)
     if not os.path.exists(DRIVER):
         raise RuntimeError('driver not built: ' + DRIVER)
     data = '\n'.join(lines) + '\n'
@@ -466,6 +476,7 @@ class Ctx:
         self.notes = []
         self.pending = []         # (lines, answers, sections, label)
         self.budget_s = 60 if tier == 'quick' else 600
+        self.driver = None        # name of the lean_exe that replays this check's sessions
 
     def time_left(self):
         return self.budget_s - (time.time() - self.t0)
@@ -498,7 +509,7 @@ class Ctx:
         for lines, _a, _s, _l in self.pending:
             all_lines.extend(lines)
         try:
-            out = run_model(all_lines)
+            out = run_model(all_lines, driver=self.driver)
         except Exception as e:  # noqa: BLE001
             self.disagreements.append(dict(kind='driver', error=repr(e)))
             self.pending = []
